@@ -592,6 +592,41 @@ func (w *world) park1(c *cconn) bool {
 	id := c.id
 	switch c.point {
 	case ptIdle:
+		if w.r.Rng("c07-idle-variant", w.c.Idx*8+id).Intn(2) == 1 {
+			// idle between two requests of a keep-alive connection: complete one exchange first
+			pre := 200 + id
+			c.conn.Write([]byte(request(pre)))
+			br := bufio.NewReaderSize(c.conn, 512)
+			okc := make(chan bool, 1)
+			go func() {
+				h, err := tunx.ReadHead(br)
+				if err != nil || h.Status() != 200 || len(h.Get("Content-Length")) != 1 {
+					okc <- false
+					return
+				}
+				n, _ := strconv.Atoi(h.Get("Content-Length")[0])
+				_, err = io.CopyN(io.Discard, br, int64(n))
+				atomic.AddInt64(&w.bytesActivity, int64(n))
+				okc <- err == nil && br.Buffered() == 0
+			}()
+			var done, good int32
+			go func() {
+				if <-okc {
+					atomic.StoreInt32(&good, 1)
+				}
+				atomic.StoreInt32(&done, 1)
+			}()
+			if !w.setup("keep-alive exchange before going idle", func() bool { return atomic.LoadInt32(&done) == 1 }) {
+				return false
+			}
+			if atomic.LoadInt32(&good) != 1 {
+				w.r.SetCase(w.c)
+				w.r.Inconclusive("setup: the exchange preceding the idle point did not complete", w.state())
+				return false
+			}
+			w.r.Count("idle_points_after_a_keepalive_exchange", 1)
+			return w.setup("idle keep-alive connection: proxy reading again", func() bool { return c.sv.Unread() == 0 && c.sv.ReadCalls() >= 2 && w.has("resmod-exit", pre) })
+		}
 		return w.setup("idle connection: proxy reading", func() bool { return c.sv.ReadCalls() >= 1 })
 	case ptMidHead:
 		rq := request(id)
@@ -649,6 +684,9 @@ func runGates(r *vh.Run, c ccase, budget *tunx.Budget) {
 		}
 	}
 	w.bodyLen[100], w.bodyLen[101] = 10, 10
+	for i := range c.Points {
+		w.bodyLen[200+i] = 1 + rng.Intn(5000)
+	}
 	var conns []*cconn
 	for i, pt := range c.Points {
 		cc := w.dial(i, pt, "")
